@@ -77,6 +77,13 @@ def r1(ctx):
                 yield VIOL("C02-R1", "from_query/%s/whole-value" % name, "`%s` is not the whole decoded first value of its parameter (through %s)" % (name, sorted(set(part))), where=b.span_of_block(blk))
             else:
                 yield PASS("C02-R1", "from_query/%s/whole-value" % name, "`%s` = unescape(whole first value)" % name, [site(b, blk, name)])
+    # every value of the query carrier reaches its sink as the (decoded) first value itself: apart from the decoder, and
+    # the split of the signed-header list at ';', nothing trims, re-cases, cuts or replaces it (an upper-cased signature
+    # or a lower-cased header list is not what the client sent)
+    for name, blk, opnd in sinks:
+        alt = transforms(b, opnd, allow=r"canonical::unescape_uri_encoding$|Iterator::map$" + (r"|str>::split$|slice::<impl \[T\]>::sort\w*$" if name == "signed_headers" else ""), stop=r"HashMap::<K, V, S, A>::get$")
+        if alt:
+            yield VIOL("C02-R1", "from_query/%s/as-is" % name, "`%s` is altered between the parameter map and its use (through %s)" % (name, [c.split("::")[-1] for c in alt]), where=b.span_of_block(blk))
     if len(sinks) < 5:
         yield MISSING("C02-R1", "from_query/floor", "only %d of the 5 source->sink pairs found" % len(sinks))
     # the decoder decodes: result derives from from_str_radix(.., 16) of the two bytes after '%'
@@ -118,6 +125,44 @@ def r1h(ctx):
                 yield VIOL("C02-R1h", "from_header/%s/whole-value" % f, "the `%s` parameter of the Authorization header is altered before it is used (through %s): what is checked and looked up is not what the client sent" % (key.decode(), sorted(set(x.split("::")[-1] for x in part))), where=b.span_of_block(cs[0][0]))
             else:
                 yield PASS("C02-R1h", "from_header/%s/whole-value" % f, "%s = latin1_to_string(whole parameter value)" % f, [site(b, cs[0][0], f)])
+    # "parameter missing" is reported exactly when the parameter is absent from the map: the push of a missing-parameter
+    # message sits directly on the None edge of `parameter_map.get(..)` / `self.headers.get(..)` and on nothing else (an
+    # empty `SignedHeaders=` is present: it goes on to the host rule, 403, not to IncompleteSignature, 400)
+    miss = [(bi_, t_) for bi_, t_ in b.calls(r"Vec::<T, A>::push$") if "Vec<&str>" in t_.get("resolved_full", "") or "Vec::<&str>" in t_.get("resolved_full", "")]
+    badm = []
+    for bi_, t_ in miss:
+        for a_, sx_ in sorted(b.control_deps().get(bi_, ())):
+            c_ = b.cond_of_switch(a_)
+            okm = False
+
+            def lookup_result(l_, depth=0):
+                """every definition of local l_ is a map lookup result (or a copy / re-wrapped payload of one): the
+                desugared `a.get(x).or_else(|| a.get(y))` defines it twice"""
+                if depth > 5:
+                    return False
+                ds_ = [d for d in b.defs().get(l_, []) if d["kind"] != "mutcall"]
+                if not ds_:
+                    return False
+                for d in ds_:
+                    if d["kind"] == "call" and re.search(r"HashMap::<K, V, S, A>::get$", d["term"]["callee"]):
+                        continue
+                    if d["kind"] == "assign":
+                        rv_ = d["stmt"]["rv"]
+                        if rv_["k"] == "use" and op_place(rv_["op"]) is not None and lookup_result(op_place(rv_["op"])["local"], depth + 1):
+                            continue
+                        if rv_["k"] == "aggregate" and rv_.get("variant") in ("Some", "None") and all(op_place(o) is None or lookup_result(op_place(o)["local"], depth + 1) for o in rv_["ops"]):
+                            continue
+                    return False
+                return True
+
+            if c_ and c_["kind"] == "discr":
+                okm = lookup_result(c_["place"]["local"])
+            if not okm:
+                badm.append((bi_, (c_ or {}).get("callee") or (c_ or {}).get("op") or (c_ or {}).get("kind") or "?"))
+    if badm:
+        yield VIOL("C02-R1h", "from_header/missing-only-when-absent", "a parameter is reported as missing under a condition other than its absence from the Authorization header (%s): a present (e.g. empty) parameter is refused with the wrong error" % sorted({str(w).split("::")[-1] for _, w in badm}), where=b.span_of_block(badm[0][0]))
+    elif miss:
+        yield PASS("C02-R1h", "from_header/missing-only-when-absent", "%d missing-parameter messages, each on the None edge of its lookup" % len(miss), [])
     ag = one(b.aggregates(adt=r"canonical::AuthParams$"), "AuthParams construction in from_auth_header")
     fields = dict(zip(ag[2]["rv"]["fields"], ag[2]["rv"]["ops"]))
     sh = b.slice_op(fields["signed_headers"])
@@ -130,6 +175,9 @@ def r1h(ctx):
         yield VIOL("C02-R1h", "from_header/signed_headers/source", "signed-header list is fed from %s" % keys, where=loc(ag[2]["span"]))
     else:
         yield PASS("C02-R1h", "from_header/signed_headers/source", "<= parameter_map[b\"SignedHeaders\"].split(b';')", [loc(ag[2]["span"])])
+        halt = transforms(b, fields["signed_headers"], allow=r"canonical::latin1_to_string$|slice::<impl \[T\]>::split$|Iterator::map$|slice::<impl \[T\]>::sort\w*$", stop=r"HashMap::<K, V, S, A>::get$")
+        if halt:
+            yield VIOL("C02-R1h", "from_header/signed_headers/as-is", "the signed-header names are altered between the SignedHeaders parameter and the list that is enforced and rendered (through %s)" % [c.split("::")[-1] for c in halt], where=loc(ag[2]["span"]))
     ts = b.slice_op(fields["timestamp_str"])
     tkeys = set()
     for _, t in ts.find_calls(r"HashMap::<K, V, S, A>::get$"):
@@ -150,6 +198,9 @@ def r1h(ctx):
     if len(tok) == 1:
         sl = b.slice_op(tok[0][1]["args"][1])
         k2 = {const_str_of(b, t["args"][1])[0] for _, t in sl.find_calls(r"HashMap::<K, V, S, A>::get$")}
+        talt = transforms(b, tok[0][1]["args"][1], allow=r"canonical::latin1_to_string$", stop=r"HashMap::<K, V, S, A>::get$")
+        if talt:
+            yield VIOL("C02-R1h", "from_header/token/whole-value", "the session token header value is altered before it is handed on (through %s)" % [c.split("::")[-1] for c in talt], where=b.span_of_block(tok[0][0]))
         if k2 != {"x-amz-security-token"}:
             yield VIOL("C02-R1h", "from_header/token/source", "session token is read from %s" % k2, where=b.span_of_block(tok[0][0]))
         else:
